@@ -95,7 +95,7 @@ URL = re.compile(r"""url\(\s*['"]?#([^)\s'"]+)['"]?\s*\)""")
 
 # other legal spellings of the same reference: ids with characters beyond [A-Za-z0-9_-], quoted / padded url()
 SPELL_IDS = ["g.1", "a:b", "\u00dcn\u00ef-\u00f6", "_"]
-SPELL_URLS = ["url(#{})", "url('#{}')", "url(&quot;#{}&quot;)", "url( #{} )"]
+SPELL_URLS = ["url(#{})", "url('#{}')", "url(&quot;#{}&quot;)", "url( #{} )", "url(#{}) red", "url(#{}) none"]
 
 
 def respell(doc, gid, hid, urlstyle):
